@@ -3,6 +3,7 @@ stats/serverinfo/metrics gate of backend_server.go and proxy/proxy_server.go).""
 import collections
 import os
 import re
+import urllib.parse
 
 from ._util import verdict_stats as _verdict_stats
 
@@ -40,18 +41,70 @@ def _shape(op):
     return lab
 
 
+_MAPPED = "00000000000000000000ffff"
+_PORTED_V6 = re.compile(r"\[[0-9a-fA-F:.]+\]:\d+")
+
+
+def _common_bits(a, b):
+    x = int(a, 16) ^ int(b, 16)
+    return 128 - x.bit_length()
+
+
+def _hosts(op):
+    """Single-address entries (16-byte hex) of the trusted list and of the allow-list of a new/reload line."""
+    f = op.split(" ")
+    try:
+        t, a, s_ = f.index("T"), f.index("A"), f.index("S")
+    except ValueError:
+        return [], []
+    pick = lambda xs: [x[1:] for x in xs if x.startswith("h") and len(x) == 33]
+    return pick(f[t + 2:a]), pick(f[a + 2:s_])
+
+
+def _next_door(addr, hosts):
+    """addr (hex of net.ParseIP) is not one of the single addresses but shares the leading bytes with one —
+    what a too short prefix (or one counted in the other family) would let in."""
+    if len(addr) != 32:
+        return False
+    for h in hosts:
+        if h == addr:
+            continue
+        need = 104 if h.startswith(_MAPPED) else 16
+        if _common_bits(addr, h) >= need:
+            return True
+        # the four bytes of an IPv4 host at the start of an IPv6 address
+        if h.startswith(_MAPPED) and addr.startswith(h[24:]):
+            return True
+    return False
+
+
 def c16_stats(cases, model):
     ops, outs, shapes, chosen = (collections.Counter() for _ in range(4))
     servers = collections.Counter()
     cfg_err = 0
     lens = []
+    special = collections.Counter()
     for c in cases:
         lens.append(len(c["ops"]))
+        th, ah = [], []
         for o, i in zip(c["ops"], c.get("impl") or []):
             k = o.split(" ", 1)[0]
             ops[k] += 1
+            if k in ("new", "reload"):
+                th, ah = _hosts(o)
+                for h in th + ah:
+                    special["single_address_entries_v4" if h.startswith(_MAPPED) else "single_address_entries_v6"] += 1
             if k in ("ip", "get"):
                 shapes[_shape(o)] += 1
+                f = o.split(" ")
+                x = f.index("X") if "X" in f else 0
+                peer = f[x - 1].rsplit(";", 1)[-1] if x else ""
+                if _next_door(peer, th):
+                    special["peer_next_door_to_single_trusted_address"] += 1
+                if _next_door(peer, ah):
+                    special["peer_next_door_to_single_allowed_address"] += 1
+                if "R" in f and _PORTED_V6.search(urllib.parse.unquote(" ".join(f[f.index("R") + 3:]))):
+                    special["requests_with_bracketed_ported_v6_in_a_header"] += 1
             if k == "get":
                 servers[o.split(" ")[1]] += 1
                 outs["get:" + i] += 1
@@ -68,7 +121,7 @@ def c16_stats(cases, model):
     bad = sum(1 for c in cases for i in (c.get("impl") or []) if i == "bad-op")
     bad += sum(1 for ms in model for m, _ in ms if m in ("bad-op", "<driver-missing>"))
     return dict(verdicts=_verdict_stats(cases, model), ops=dict(ops), bad_ops=bad, outcomes=dict(outs), request_shapes=dict(shapes),
-                address_taken_from=dict(chosen), servers=dict(servers), config_errors=cfg_err,
+                address_taken_from=dict(chosen), servers=dict(servers), config_errors=cfg_err, situations=dict(special),
                 proxy_generator_in_sync=_gen_in_sync(),
                 max_case_len=max(lens or [0]), mean_case_len=round(sum(lens) / max(1, len(lens)), 1))
 
@@ -103,16 +156,22 @@ CONFIG = dict(
     stats=c16_stats,
     nontrivial=c16_nontrivial,
     rule="per case one server built from a generated trusted-proxy list and allow-list (fixed table incl. /0, /32, /128, "
-         "IPv4-in-IPv6 networks, defaults, empty and unparsable lists; Reload in between), then 4-40 requests drawn from an "
-         "address world derived from the configuration (inside trusted / inside allowed / outside, spelled as v4, mapped, "
-         "expanded v6, with ports, brackets, zones, spaces, garbage), 0-2 X-Real-IP lines and 0-3 X-Forwarded-For lines of "
-         "0-5 hops, sent to GetRealUserIP and through the router to the gated endpoints of the main server and of the "
-         "proxy; plus direct AllowedIps.Allowed probes incl. degenerate byte lengths; non-trivial = some request is "
-         "answered with a header-derived address, or a gated endpoint answers 200, or a membership probe succeeds; "
-         "distinct = distinct op lists",
+         "IPv4-in-IPv6 networks, single addresses of both families in every spelling, defaults, empty and unparsable "
+         "lists; Reload in between), then 4-40 requests drawn from an address world derived from the configuration "
+         "(inside trusted / inside allowed / outside / next door: the sibling just outside a prefix, one bit flipped at "
+         "the usual prefix boundaries, network ends, the look-alikes in the other address family; spelled as v4, "
+         "mapped, expanded v6, with ports, brackets, zones, spaces, garbage), 0-2 X-Real-IP lines and 0-3 "
+         "X-Forwarded-For lines of 0-5 hops, plus scripted proxy chains (forged hops, the client as the proxy saw it "
+         "incl. [v6]:port, further trusted proxies), sent to GetRealUserIP and through the router to the gated endpoints "
+         "of the main server and of the proxy; plus direct AllowedIps.Allowed probes incl. degenerate byte lengths. The "
+         "judge reads 'configured' off the written entries (no prefix length = that one address), networks are compared "
+         "in canonical form (family, masked address, prefix length); non-trivial = some request is answered with a "
+         "header-derived address, or a gated endpoint answers 200, or a membership probe succeeds; distinct = distinct "
+         "op lists",
     trusted_base=[
-        "net.SplitHostPort, net.ParseIP, net.ParseCIDR, net.CIDRMask, strings.TrimSpace (unicode.IsSpace), comma splitting: "
-        "done by the harness tokeniser with its own standard-library calls; the model sees (text, parsed bytes) tokens",
+        "net.SplitHostPort, net.ParseIP, net.ParseCIDR, strings.TrimSpace (unicode.IsSpace), comma splitting: "
+        "done by the harness tokeniser with its own standard-library calls; the model sees (text, parsed bytes) tokens, "
+        "configured entries as `single address` (no slash, bytes of net.ParseIP) or `network` (net.ParseCIDR)",
         "net/http.Header canonicalisation and Header.Get = first value; gorilla/mux routing; promhttp handler answers 200",
     ],
     assumptions=[
@@ -124,8 +183,10 @@ CONFIG = dict(
 MANIFEST = dict(
     text="Machine-checked Lean 4 theorems about a model of GetRealUserIP / AllowedIps / the statistics gate over "
          "tokenised requests, defined over facts regenerated from the source (header names and order of consultation, "
-         "peer check before any header, hop reversal, default lists, gated routes, refusal status). Tied to the code by "
-         "facts extraction plus a differential run of the real functions and of both servers' routers.",
+         "peer check before any header, hop reversal, default lists, gated routes, refusal status), incl. that the lists "
+         "a server holds are what the operator wrote (an entry without prefix length is that one address). Tied to the "
+         "code by facts extraction plus a differential run of the real functions and of both servers' routers whose "
+         "judge evaluates the statement against the written configuration.",
     note="Trusted: Lean kernel, extractor, harness tokeniser (standard library string/address parsing), net/http, mux.",
     technique="Lean 4 proof (case analysis + induction over the hop list, refinement to a declarative spec) + regenerated "
               "facts + differential correspondence",
